@@ -34,7 +34,14 @@ pub fn expand(assert: &AssertStruct) -> TokenStream {
         })
         .collect();
 
-    let assertion = expand_pattern_assertion(&quote! { #value }, pattern);
+    let assertion = expand_pattern_assertion(&quote! { __assert_struct_value }, pattern);
+
+    // Evaluate the asserted expression exactly once and only borrow it.
+    let root_binding = if assertion.is_empty() {
+        quote! {}
+    } else {
+        quote! { let __assert_struct_value = &(#value); }
+    };
 
     // Wrap in a block to avoid variable name conflicts
     quote! {
@@ -59,6 +66,8 @@ pub fn expand(assert: &AssertStruct) -> TokenStream {
                     ::std::env!("CARGO_MANIFEST_DIR"),
                     ::std::file!(),
                 );
+
+                #root_binding
 
                 #assertion
 
